@@ -404,8 +404,41 @@ impl Narrow for NarrowImpl {
     }
 }
 
+// a method with the maximum of 64 arguments; the last one (bit 63 of the by-reference mask) is passed by reference
+#[savefile_abi_exportable(version = 0)]
+pub trait ManyArgs {
+    #[allow(clippy::too_many_arguments)]
+    fn many(&self, a0: u8, a1: u8, a2: u8, a3: u8, a4: u8, a5: u8, a6: u8, a7: u8, a8: u8, a9: u8, a10: u8, a11: u8, a12: u8, a13: u8, a14: u8, a15: u8, a16: u8, a17: u8, a18: u8, a19: u8, a20: u8, a21: u8, a22: u8, a23: u8, a24: u8, a25: u8, a26: u8, a27: u8, a28: u8, a29: u8, a30: u8, a31: u8, a32: u8, a33: u8, a34: u8, a35: u8, a36: u8, a37: u8, a38: u8, a39: u8, a40: u8, a41: u8, a42: u8, a43: u8, a44: u8, a45: u8, a46: u8, a47: u8, a48: u8, a49: u8, a50: u8, a51: u8, a52: u8, a53: u8, a54: u8, a55: u8, a56: u8, a57: u8, a58: u8, a59: u8, a60: u8, a61: u8, a62: u8, last: &u32) -> u32;
+    fn first_by_ref(&self, first: &u32, tail: u8) -> u32;
+}
+struct ManyArgsImpl;
+impl ManyArgs for ManyArgsImpl {
+    fn many(&self, a0: u8, a1: u8, a2: u8, a3: u8, a4: u8, a5: u8, a6: u8, a7: u8, a8: u8, a9: u8, a10: u8, a11: u8, a12: u8, a13: u8, a14: u8, a15: u8, a16: u8, a17: u8, a18: u8, a19: u8, a20: u8, a21: u8, a22: u8, a23: u8, a24: u8, a25: u8, a26: u8, a27: u8, a28: u8, a29: u8, a30: u8, a31: u8, a32: u8, a33: u8, a34: u8, a35: u8, a36: u8, a37: u8, a38: u8, a39: u8, a40: u8, a41: u8, a42: u8, a43: u8, a44: u8, a45: u8, a46: u8, a47: u8, a48: u8, a49: u8, a50: u8, a51: u8, a52: u8, a53: u8, a54: u8, a55: u8, a56: u8, a57: u8, a58: u8, a59: u8, a60: u8, a61: u8, a62: u8, last: &u32) -> u32 {
+        a0 as u32 + a1 as u32 + a2 as u32 + a3 as u32 + a4 as u32 + a5 as u32 + a6 as u32 + a7 as u32 + a8 as u32 + a9 as u32 + a10 as u32 + a11 as u32 + a12 as u32 + a13 as u32 + a14 as u32 + a15 as u32 + a16 as u32 + a17 as u32 + a18 as u32 + a19 as u32 + a20 as u32 + a21 as u32 + a22 as u32 + a23 as u32 + a24 as u32 + a25 as u32 + a26 as u32 + a27 as u32 + a28 as u32 + a29 as u32 + a30 as u32 + a31 as u32 + a32 as u32 + a33 as u32 + a34 as u32 + a35 as u32 + a36 as u32 + a37 as u32 + a38 as u32 + a39 as u32 + a40 as u32 + a41 as u32 + a42 as u32 + a43 as u32 + a44 as u32 + a45 as u32 + a46 as u32 + a47 as u32 + a48 as u32 + a49 as u32 + a50 as u32 + a51 as u32 + a52 as u32 + a53 as u32 + a54 as u32 + a55 as u32 + a56 as u32 + a57 as u32 + a58 as u32 + a59 as u32 + a60 as u32 + a61 as u32 + a62 as u32 + *last
+    }
+    fn first_by_ref(&self, first: &u32, tail: u8) -> u32 {
+        *first * 2 + tail as u32
+    }
+}
+
 pub fn wide() -> Vec<Value> {
     let mut fails = vec![];
+    let r = catch_unwind(AssertUnwindSafe(|| AbiConnection::<dyn ManyArgs>::from_boxed_trait(Box::new(ManyArgsImpl))));
+    match r {
+        Ok(Ok(c)) => {
+            let got = catch_unwind(AssertUnwindSafe(|| (c.many(0, 3, 6, 2, 5, 1, 4, 0, 3, 6, 2, 5, 1, 4, 0, 3, 6, 2, 5, 1, 4, 0, 3, 6, 2, 5, 1, 4, 0, 3, 6, 2, 5, 1, 4, 0, 3, 6, 2, 5, 1, 4, 0, 3, 6, 2, 5, 1, 4, 0, 3, 6, 2, 5, 1, 4, 0, 3, 6, 2, 5, 1, 4, &1000), c.first_by_ref(&21, 3))));
+            match got {
+                Ok((a, b)) => {
+                    if a != 189 + 1000 || b != 45 {
+                        fails.push(json!({"check": "c09.manyargs.results", "detail": format!("64-argument method returned {} (want {}), first_by_ref {} (want 45)", a, 189 + 1000, b)}));
+                    }
+                }
+                Err(p) => fails.push(json!({"check": "c09.manyargs.panic", "detail": vcommon::panic_msg(p)})),
+            }
+        }
+        Ok(Err(e)) => fails.push(json!({"check": "c09.manyargs.connect", "detail": format!("64-argument method: cannot connect: {}", e)})),
+        Err(p) => fails.push(json!({"check": "c09.manyargs.connect", "detail": format!("64-argument method: connect panics: {}", vcommon::panic_msg(p))})),
+    }
     let r = catch_unwind(AssertUnwindSafe(|| AbiConnection::<dyn Wide>::from_boxed_trait(Box::new(WideImpl))));
     match r {
         Ok(Ok(c)) => {
